@@ -77,7 +77,10 @@ def finish(pid, tier, seed, plan, results, wall):
               "cvc5_error": 0, "cvc5_disagree": 0, "cvc5_time": 0.0}
     samples = []
     bounded = []
+    cases = {}
     for r in results:
+        for k_, v_ in r.get("cases", {}).items():
+            cases[k_] = cases.get(k_, False) or v_
         errors.extend(r["errors"])
         for n, o in r["obs"].items():
             if n in obs:
@@ -182,6 +185,11 @@ def finish(pid, tier, seed, plan, results, wall):
                 code = 3 if code == 0 else code
             else:
                 print(f"UNDECIDED property={pid} instance={u['instance']} ({u['reason']}) bounded-clean")
+    if cases:
+        unreached = sorted(k_ for k_, v_ in cases.items() if not v_)
+        plan.setdefault("coverage_extra", {})["vacuity"] = {
+            "contract_cases": len(cases), "reached_by_some_path": len(cases) - len(unreached),
+            "unreached (guard infeasible for that class / role - informational)": unreached[:40]}
     write_evidence(pid, tier, seed, plan, obs, violations, known_hits, und_notes, functions, contracts, inlined, trusted,
                    paths, solver, samples, wall, unsupported, bounded)
     n_ob = len(obs)
